@@ -113,7 +113,7 @@ def handle (j : Json) : M Json := do
   | "encode" => do
       let t ← parseTree (← fld j "t"); let a ← fldBool j "active"
       pure (Json.mkObj [("rows", Json.arr ((P.encode a t).map rowJ).toArray),
-                        ("vars", Json.arr ((P.flatIB t).map idBndJ).toArray),
+                        ("vars", Json.arr (((P.flatIB t).filter (fun e => !(a && e.1 == t.id))).map idBndJ).toArray),
                         ("safe", P.safeB t)])
   | _ => throw "bad-op"
 
